@@ -76,6 +76,11 @@ class ProbeFuture(Future):
         self.mc.emit("probe.cancel", f=self.label, ret=r, was=was)
         return r
 
+    def _invoke_callbacks(self):
+        # the state is terminal here and no callback has run yet
+        self.mc.emit("probe.done", f=self.label, state=self._state)
+        Future._invoke_callbacks(self)
+
 
 class Item(object):
     __slots__ = ("idx", "fn", "args", "kwargs", "future", "state")
